@@ -361,8 +361,20 @@ pub struct Cfg {
 
 pub const FOCUS_HEADERS: u8 = 1;
 pub const FOCUS_BODY: u8 = 2;
+pub const FOCUS_RANGE: u8 = 3;
 
 macro_rules! hdr_assert {
+    ($c:expr, $cond:expr, $msg:expr) => {
+        if $c.focus != FOCUS_BODY && $c.focus != FOCUS_RANGE {
+            assert!($cond, $msg);
+        }
+    };
+}
+
+/// status + Content-Range / Content-Length of a range response: also carried by the
+/// FOCUS_RANGE instances of the quick tier (the full set of header assertions makes a 206
+/// instance a 450-700 s problem; this subset is what fits the per-change budget)
+macro_rules! rng_assert {
     ($c:expr, $cond:expr, $msg:expr) => {
         if $c.focus != FOCUS_BODY {
             assert!($cond, $msg);
@@ -373,7 +385,7 @@ macro_rules! hdr_assert {
 /// body check or, in a headers-only instance, nothing
 macro_rules! body_check {
     ($c:expr, $body:expr, $check:expr) => {
-        if $c.focus != FOCUS_HEADERS {
+        if $c.focus != FOCUS_HEADERS && $c.focus != FOCUS_RANGE {
             $check
         } else {
             std::mem::forget($body);
@@ -486,7 +498,7 @@ pub fn serve_cfg(c: Cfg) {
         hdr_assert!(c, unsafe { !PARSE_GOT_HDR }, "C05: Range honoured although If-Range does not match a strong ETag");
     }
     // 413 (and 400) are built from a fresh response: C14 lists 200, 206, 304, 412 and 416 only
-    if c.focus != FOCUS_BODY && st != 413 && st != 400 {
+    if c.focus != FOCUS_BODY && c.focus != FOCUS_RANGE && st != 413 && st != 400 {
         check_common_headers(&sn, &d);
     }
 
@@ -517,14 +529,14 @@ pub fn serve_cfg(c: Cfg) {
     }
     if c.nranges == 1 {
         let (a, b) = rs[0];
-        hdr_assert!(c, st == 206, "C03: satisfiable single range not answered 206");
+        rng_assert!(c, st == 206, "C03: satisfiable single range not answered 206");
         let cr = sn.val[S_CONTENT_RANGE];
-        hdr_assert!(c, cr.is_some() && sn.count[S_CONTENT_RANGE] == 1, "C02: 206 without Content-Range");
+        rng_assert!(c, cr.is_some() && sn.count[S_CONTENT_RANGE] == 1, "C02: 206 without Content-Range");
         let got = parse_content_range(cr.unwrap());
-        hdr_assert!(c, got == Some((a, b - 1, d.len)), "C02/C03: Content-Range does not name the resolved range a-b/L");
-        hdr_assert!(c, sn.count[S_CONTENT_LENGTH] == 1, "C01: 206 without Content-Length");
+        rng_assert!(c, got == Some((a, b - 1, d.len)), "C02/C03: Content-Range does not name the resolved range a-b/L");
+        rng_assert!(c, sn.count[S_CONTENT_LENGTH] == 1, "C01: 206 without Content-Length");
         let cl = parse_whole_decimal(sn.val[S_CONTENT_LENGTH].unwrap());
-        hdr_assert!(c, cl == Some(b - a), "C01: Content-Length is not the range length");
+        rng_assert!(c, cl == Some(b - a), "C01: Content-Length is not the range length");
         if c.ir == IR_ABSENT {
             hdr_assert!(c, entity_headers_present(&sn, &d), "C14: entity headers missing on 206 without If-Range");
         } else {
